@@ -575,7 +575,7 @@ func checkC17(w *World, r *Run) {
 	ruleAuth := r.Rule("frame-fields-are-authenticated-before-use", "F9",
 		"in the erasure-coding reader a payload enters the reconstruction only on the true edge of bytes.Equal(expected hash, sha256(payload)); every value parseFrameHeader returns is, before it influences the output, compared for equality with an independent value or covered by that hash", 5)
 	ruleQuorum := r.Rule("reconstruction-needs-a-quorum", "F1",
-		"ReconstructData is reached only where available >= dataShards (the other edge fails the read); a shard whose header does not parse or whose geometry differs from the store's configuration is closed and marked for healing, never read", 3)
+		"ReconstructData is reached only where available >= dataShards (the other edge fails the read); a shard whose header does not parse or whose geometry differs from the store's configuration is closed and marked for healing, never read; a shard ending inside a frame header counts as faulty", 4)
 
 	fn := w.SSAFunc(relErasure, "erasureCodingPartStore.newPartReader")
 	if fn == nil {
@@ -668,6 +668,56 @@ func checkC17(w *World, r *Run) {
 		cons := "parseFrameHeader result " + names[e.Index] + " is authenticated"
 		r.Check(authed, ruleAuth, cons, posOf(parse), "compared with an independent value or covered by the payload hash", "the "+names[e.Index]+" field of a frame header reaches the output without being compared or hashed: flipping it in one shard (within the parity budget) changes the bytes returned — e.g. dataBytes truncates the stripe — and the read still succeeds")
 	}
+
+	// a shard that ends early — on a frame boundary or in the middle of a frame header — is a
+	// faulty shard, not a failed read: both io.EOF and io.ErrUnexpectedEOF of the frame-header
+	// read must lead to healing
+	var hdrRead *ssa.Call
+	allInstrs(lit, false, func(_ *ssa.Function, ins ssa.Instruction) {
+		c, ok := ins.(*ssa.Call)
+		if !ok || !isCallNamed(c, "ReadFull") || hdrRead != nil {
+			return
+		}
+		// the buffer later handed to parseFrameHeader
+		if sliceContains(parse.Call.Args[0], false, func(x ssa.Value) bool { return x == c.Call.Args[1] }) || sameValue(parse.Call.Args[0], c.Call.Args[1]) {
+			hdrRead = c
+		}
+	})
+	tolerated := map[string]bool{}
+	if hdrRead != nil {
+		for _, b := range lit.Blocks {
+			for k := range b.Succs {
+				if len(b.Succs) != 2 {
+					continue
+				}
+				for _, f := range edgeFacts(b, k) {
+					c, ok := f.Val.(*ssa.Call)
+					if !ok || f.Kind != IsTrue || !isCallNamed(c, "Is") {
+						continue
+					}
+					if e, _ := extractOf(c.Call.Args[0]); e != hdrRead {
+						continue
+					}
+					// the true edge marks the shard and goes on (no CloseWithError before the next shard)
+					aborts := false
+					for _, ins := range b.Succs[k].Instrs {
+						if cc, ok := ins.(*ssa.Call); ok && isCallNamed(cc, "CloseWithError") {
+							aborts = true
+						}
+					}
+					if aborts {
+						continue
+					}
+					for _, name := range []string{"EOF", "ErrUnexpectedEOF"} {
+						if globalErrLoaded(c.Call.Args[1], name) {
+							tolerated[name] = true
+						}
+					}
+				}
+			}
+		}
+	}
+	r.Check(hdrRead != nil && tolerated["EOF"] && tolerated["ErrUnexpectedEOF"], ruleQuorum, "a shard truncated inside a frame header is healed, not fatal", posOrFn(hdrRead, fn), "errors.Is(err, io.EOF) and errors.Is(err, io.ErrUnexpectedEOF) of the header read both mark the shard", "a shard cut in the middle of a frame header aborts the whole read although at most parity-many shards are faulty")
 
 	// quorum
 	var recon *ssa.Call
